@@ -1062,8 +1062,11 @@ def c20(run):
     run.neg("Registry", "n2.cfg", cfg_text=registry_cfg("seq", "delivered", "NoPollerAfterStop"), label="neg:started-never-set/stop-is-noop")
     run.neg("Registry", "n3.cfg", cfg_text=registry_cfg("seq", "flagonly", "StopTerminates"), label="neg:flag-only-repair-deadlocks")
     n = 1500 if th else 200
-    out, _ = run.go("^TestRegistryRandom$", env={"VERIF_N": n}, timeout=600)
+    out, _ = run.go("^(TestRegistryRandom|TestRegistryStopOverlap)$", env={"VERIF_N": n}, timeout=600)
     tp = os.path.join(out, "registry_trace.ndjson")
+    # a second Stop or a Start while a Stop waits for a poll in progress (real time)
+    with open(tp, "a") as f:
+        f.write(open(os.path.join(out, "registry_overlap_trace.ndjson")).read())
     rows = vlib.read_ndjson(tp)
     polls = sum(1 for x in rows if x["ev"] == "Op" and any(v > 0 for v in x["obs"]["polls"].values()))
     fw = sum(1 for x in rows if x["ev"] == "Op" and x["op"]["op"] == "sample")
